@@ -996,9 +996,9 @@ def eval_case(spec, la, strip: bool, codecs: List[str], want_model: bool = True,
                 inp = {"spec": spec, "codec": codec, **cfg}
                 res.req.append((tree_line("textbin", tree, codec, "0"), "tie", out.hex() or "-",
                                 {"op": "textbin", **inp}))
-                if codec == "utf-32":
-                    res.req.append(("utf32dec " + (out.hex() or "-"), "spec", hexs(exp_text),
-                                    {"op": "utf32dec", **inp}))
+                if codec in ("utf-32", "utf-16") and out:
+                    op = "utf32dec" if codec == "utf-32" else "utf16dec"
+                    res.req.append((op + " " + out.hex(), "spec", hexs(exp_text), {"op": op, **inp}))
             if not representable(exp_text, codec):
                 continue
             try:
@@ -1469,10 +1469,10 @@ def flush_model(ctx: C.Ctx, results: List[CaseResult]) -> None:
         elif kind == "thm":
             ctx.disagree(inp["op"], inp, "theorem instance (Lean reader on the model output = skeleton)"
                          if inp["op"] == "xmlcheck" else "theorem instance " + inp["op"], got)
-        elif inp["op"] == "utf32dec":
-            ctx.fail(C.Failure("utf-32 binary sink read by the Lean decoder of C11_sink_utf32 is not the text of the "
-                               "layout tree", {k: v for k, v in inp.items() if k != "op"}, exp, got,
-                               {"stage": "sink", "otype": "text", "codec": "utf-32"}))
+        elif inp["op"] in ("utf32dec", "utf16dec"):
+            ctx.fail(C.Failure(inp["codec"] + " binary sink read by the Lean decoder of C11_sink_utf32/_utf16 is not "
+                               "the text of the layout tree", {k: v for k, v in inp.items() if k != "op"}, exp, got,
+                               {"stage": "sink", "otype": "text", "codec": inp["codec"]}))
         elif inp["op"] in ("spectextpn", "textraw"):
             what = ("text output with showpageno differs from the Lean specification specTextPn of the layout tree"
                     if inp["op"] == "spectextpn" else
